@@ -237,7 +237,7 @@ fn sjob_case(rng: &mut Rng, rep: &mut Report, big: bool) -> Option<(String, Stri
     // big: quality 0/1, window 2^10 / 2^12, ~12 KB of random bytes: the job buffer is too small, the job answers Err
     let class = if big { 8 } else { rng.below(8) };
     let (q, i, t, n): (i32, usize, usize, usize) = match class {
-        0 | 1 | 2 | 3 => { let t = rng.range(1, 6) as usize; (rng.range(0, 9) as i32, 0, t, rng.range(0, 2400) as usize) }            // job 0
+        0 | 1 | 2 | 3 => { let t = rng.range(1, 6) as usize; (rng.range(0, 11) as i32, 0, t, rng.range(0, 2400) as usize) }           // job 0
         8 => (rng.range(0, 1) as i32, 0, 1, rng.range(11000, 13000) as usize),
         4 | 5 | 6 => { let t = rng.range(2, 6) as usize; (rng.range(0, 1) as i32, rng.range(1, (t - 1) as u64) as usize, t, rng.range(0, 3000) as usize) } // quality 0/1, any job
         _ => { let t = rng.range(3, 16) as usize; (rng.range(0, 9) as i32, 1, t, rng.range(0, (t as u64) / 2) as usize) }                  // empty prefix: (1 * n) / t = 0
